@@ -1753,11 +1753,81 @@ class PE:
             self.store(nm, ('mut', 'comp', cur, (self._args_sans(cur, (res,))[0],)), env, True)
         return res
 
+    def _comp_as_loop(self, n, env):
+        """A list comprehension / generator expression whose element calls something that may write an object of the enclosing
+        scope is the append loop it abbreviates: evaluated as that loop, so that both spellings thread the state the same way."""
+        if self.spec_depth or self.no_mark or self.purity is None or getattr(self, 'cur_effects', None) is None:
+            return None
+        bound = set()
+        for g in n.generators:
+            for x in ast.walk(g.target):
+                if isinstance(x, ast.Name):
+                    bound.add(x.id)
+        writes = False
+        parts = [n.elt] + [c for k_, g in enumerate(n.generators) for c in (list(g.ifs) + ([g.iter] if k_ else []))]
+        for p_ in parts:
+            for x in ast.walk(p_):
+                if isinstance(x, ast.Call):
+                    tg = None
+                    if isinstance(x.func, ast.Attribute) and (x.func.attr in MUTATORS or self._writing(x.func.attr)) \
+                            and not self._is_module_name(x.func.value, env) and self._self_call_writes(x.func) != set():
+                        tg = x.func.value
+                        while isinstance(tg, (ast.Attribute, ast.Subscript)):
+                            tg = tg.value
+                    if (isinstance(tg, ast.Name) and tg.id not in bound and tg.id in env) or \
+                            any(r_ not in bound and r_ in env for r_ in self._written_args(x)):
+                        writes = True
+                if isinstance(x, (ast.Lambda, ast.ListComp, ast.GeneratorExp, ast.SetComp, ast.DictComp, ast.Yield, ast.YieldFrom, ast.NamedExpr)):
+                    return None
+        if not writes or any(g.is_async for g in n.generators):
+            return None
+        self._ncomp = getattr(self, '_ncomp', 0) + 1
+        acc = '_comp%d' % self._ncomp
+        ren = {v: '%s_%s' % (acc, v) for v in bound}
+
+        class R(ast.NodeTransformer):
+            def visit_Name(self, node):
+                if node.id in ren:
+                    return ast.copy_location(ast.Name(id=ren[node.id], ctx=node.ctx), node)
+                return node
+        import copy as _copy
+        body = [ast.Expr(value=ast.Call(func=ast.Attribute(value=ast.Name(id=acc, ctx=ast.Load()), attr='append', ctx=ast.Load()),
+                                        args=[R().visit(_copy.deepcopy(n.elt))], keywords=[]))]
+        for k_ in range(len(n.generators) - 1, -1, -1):
+            g = n.generators[k_]
+            for c in reversed(g.ifs):
+                body = [ast.If(test=R().visit(_copy.deepcopy(c)), body=body, orelse=[])]
+            it_ = _copy.deepcopy(g.iter) if k_ == 0 else R().visit(_copy.deepcopy(g.iter))
+            body = [ast.For(target=R().visit(_copy.deepcopy(g.target)), iter=it_, body=body, orelse=[], type_comment=None)]
+        stmts = [ast.Assign(targets=[ast.Name(id=acc, ctx=ast.Store())], value=ast.List(elts=[], ctx=ast.Load()))] + body
+        for st in stmts:
+            ast.copy_location(st, n)
+            ast.fix_missing_locations(st)
+        saved = (self.inplace_updated, self.fresh_names)
+        self.inplace_updated = set(self.inplace_updated) | {acc}
+        self.fresh_names = set(self.fresh_names) | {acc}
+        eff = self.cur_effects
+        try:
+            self.exec_block(stmts, env, eff)
+        finally:
+            self.inplace_updated, self.fresh_names = saved
+            self.cur_effects = eff
+        res = env.pop(acc)
+        for v in ren.values():
+            env.pop(v, None)
+        return res
+
     def ev_ListComp(self, n, env):
+        r0 = self._comp_as_loop(n, env)
+        if r0 is not None:
+            return r0
         r = self.comp(n, env, 'list', lambda e: self.ev(n.elt, e))
         return self._comp_writes(n, env, self._comp_result(r, lambda items: ('list', tuple(items))))
 
     def ev_GeneratorExp(self, n, env):
+        r0 = self._comp_as_loop(n, env)
+        if r0 is not None:
+            return r0
         r = self.comp(n, env, 'list', lambda e: self.ev(n.elt, e))
         return self._comp_writes(n, env, self._comp_result(r, lambda items: ('list', tuple(items))))
 
